@@ -13,7 +13,7 @@ import json, os, random, re, shutil, subprocess, sys, threading, queue
 
 ROOT = os.path.dirname(os.path.dirname(os.path.abspath(__file__)))
 FILES = {
-    "src/btree.c": ["C01", "C02", "C07", "C08"], "src/hash.c": ["C03", "C07", "C08"], "src/ring.c": ["C05", "C04"],
+    "src/btree.c": ["C01", "C02", "C07", "C08"], "src/hash.c": ["C03", "C07", "C08"], "src/ring.c": ["C05", "C04", "C07", "C08"],
     "src/tree.c": ["C06", "C07", "C08"], "src/bump_allocator.c": ["C09"], "src/path.c": ["C10", "C11", "C12", "C07"],
     "src/digest.c": ["C13"], "src/filesystem.c": ["C15", "C07", "C08"], "src/posix/filesystem_posix.c": ["C14", "C15", "C19", "C08"],
     "src/posix/environment_posix.c": ["C16", "C07"], "src/posix/sem_posix.c": ["C17"], "src/posix/thread_posix.c": ["C18"],
